@@ -183,7 +183,9 @@ def handleSnapshots (c : Case) : Verdict :=
     match buildSub ptrees pfuel root with
     | .tree ns => !nodesOK pavail ns
     | .missing => true
-  if !badPost.isEmpty then .specfalse "C34:snapshots:repaired-snapshot-not-ok" s!"dmg={dmg} snaps={badPost.map (·.1)}" else
+  -- (only when every damaged pack was named: otherwise the index still lists blobs of a damaged
+  -- pack, and a rewritten tree that is content-identical to such a blob is not stored again)
+  if allNamed && !badPost.isEmpty then .specfalse "C34:snapshots:repaired-snapshot-not-ok" s!"dmg={dmg} snaps={badPost.map (·.1)}" else
   let findPost (id : ID) : Option (ID × ID × ID) :=
     match psnaps.find? (·.1 == id) with
     | some p => some p
